@@ -149,3 +149,16 @@ PROPS["C08"] = {
         {"name": "C08.backoff", "test": "TestVerifC08Backoff", "shards": 16},
     ],
 }
+
+PROPS["C09"] = {
+    "claimed": False,
+    "level": "exploration",
+    "level_text": "TODO",
+    "level_note": "TODO",
+    "technique": "TODO",
+    "rule": "TODO",
+    "monitors": [
+        {"name": "C09.thresholds", "test": "TestVerifC09Thresholds", "shards": 16},
+        {"name": "C09.gater", "test": "TestVerifC09Gater", "shards": 8},
+    ],
+}
